@@ -27,6 +27,23 @@ CHECKS = {
     ),
 }
 
+CHECKS["C01"] = dict(
+    text=("Machine-checked theorems (Coq) over a Gallina model of the literal marshaller (Typed.start/skip/node/"
+          "encode, the appenders, GraphResolver child/attribute lookup, sudsobject.Iter ordering, Document and RPC "
+          "body construction): for EVERY abstract schema and every conforming argument tree (unbounded nesting, "
+          "width and list length) the request body equals the one a reference translator written from the XSD/WSDL "
+          "rules prescribes — wrapper, children in schema order with inherited members first, form qualification, "
+          "attributes on their owner, xsi:type for derived types, xsi:nil/default, optional values omitted — for "
+          "document/literal wrapped, bare and rpc/literal. The model is run against the implementation on ~700 "
+          "generated (WSDL, operation, arguments) cases per quick run (14k thorough); requests are read back with "
+          "expat as an independent XML processor."),
+    design="DESIGN.md §5 C01",
+    technique="Coq proof (nested induction on values) over a Gallina marshaller model + in-Coq differential "
+              "correspondence on generated WSDL families",
+    note="Modelled at the namespace-infoset level; prefix assignment/serialisation is C05, argument binding C08, "
+         "leaf lexical forms C06. rpc/encoded arrays: see evidence (extension in progress).",
+)
+
 PENDING = {}
 
 
